@@ -166,6 +166,7 @@ class ScanProperty:
     COQ_TARGETS = []
     ASSUMPTIONS = []
     N = {'quick': 300, 'thorough': 4000}
+    CAPSTONE = {'quick': 40, 'thorough': 400}
 
     def gen_case(self, rng, i):
         raise NotImplementedError
@@ -214,6 +215,11 @@ class ScanProperty:
             if r.get('build') != 'ok' and not c.get('may_fail'):
                 out.violations.append({'property': self.ID, 'what': 'supported configuration does not build: %s %s' % (r.get('build'), r.get('error', '')),
                                        'case': c, 'idx': i})
+        cap_n = cap_ok = 0
+        if not replay and getattr(self, 'CAPSTONE', None):
+            cap_n, cap_ok, cap_breaks = scan.capstone_cases(cases[nk:], results[nk:], rdir, self.CAPSTONE[tier])
+            out.broken.extend(cap_breaks)
+        self.capstone_stats = (cap_n, cap_ok)
         seen = set()
         nt = 0
         dist = {}
@@ -243,6 +249,7 @@ class ScanProperty:
                 'ties_accepted': sum(1 for r in results if r.get('tie_accepted')),
                 'spec_stream_checks': sum(1 for r in results if 'spec' in r),
                 'model_evaluations': sum(1 for r in results if 'model_outs' in r),
+                'capstone_configurations_checked': cap_n, 'capstone_configurations_agree': cap_ok,
                 'known_findings_replayed': nk}
 
 
